@@ -362,6 +362,9 @@ type ReplayFile struct {
 	// reproduce from its own tape in a fresh process but does after the worker's earlier runs
 	// (regenerated from the seed) depends on state the library keeps in process-wide variables;
 	// the driver then sets NeedsHistory and every replay re-executes those runs first.
+	// Fresh: the run never finished (the library spun without reaching a scheduling point), so no tape
+	// was recorded: the replay regenerates the run's tape from seed and run number
+	Fresh        bool           `json:"fresh_tape,omitempty"`
 	History      *ReplayHistory `json:"history,omitempty"`
 	NeedsHistory bool           `json:"needs_history,omitempty"`
 }
